@@ -10,6 +10,7 @@ CONSTANTS
   MaxConnOps = 0
   Algos = {"smooth"}
   MaxOps = @OPS@
+  Focus = @FOCUS@
 INIT GInit
 NEXT GNext
 INVARIANTS Emit
